@@ -4,3 +4,5 @@ import BadsProofs.Props.C17
 import BadsProofs.Lemmas.CtlLemmas
 import BadsProofs.Props.C03
 import BadsProofs.Props.C13
+import BadsProofs.Lemmas.LogLemmas
+import BadsProofs.Props.C12
